@@ -279,6 +279,35 @@ func replay(files []nfile, from int64, meta []byte) (o robs) {
 	return o
 }
 
+// replayFastCommits replays like replay() but through the in-package accessor with a 1 ns commit interval: the reader's
+// commit timer fires in every loop iteration, so it issues a Commit after (almost) every record.
+func replayFastCommits(files []nfile, from int64, meta []byte) (o robs) {
+	fs := gofs.NewMemoryFs()
+	_ = fs.TempDir()
+	for _, f := range files {
+		if err := fs.WriteFile(f.name, f.data, 0o640); err != nil {
+			panic(err)
+		}
+	}
+	e := newEngine(from, nil)
+	func() {
+		defer func() {
+			if r := recover(); r != nil {
+				o.err = 16
+				o.errText = fmt.Sprint(r)
+			}
+		}()
+		pos, crc, err := fsbinlog.VerifReadAllWithCommitInterval(fs, prefix, schemaMagic, from, meta, e, time.Nanosecond)
+		o.err = classify(err)
+		if err != nil {
+			o.errText = err.Error()
+		}
+		o.pos, o.crc = pos, crc
+	}()
+	o.evs, o.commits = e.evs, e.commits
+	return o
+}
+
 func mkMeta(pos int64, crc uint32, ts uint32) []byte {
 	b := make([]byte, 24)
 	binary.LittleEndian.PutUint32(b, 0x6b49d850)
@@ -780,6 +809,49 @@ func runHistory(r *vu.Rng, o *vu.Out, hid int, big bool, nflips int, bigNo int) 
 			addRP(modif{}, rs.pos, rs.meta, ob)
 		}
 	}
+	// ---- oracle: commits issued BY THE READER in the middle of a replay (commit timer): each carries the crc of the
+	// stream up to its position, and resuming from it with its own meta delivers exactly the remaining suffix
+	if !alien {
+		fromR := []int64{0, starts[r.Intn(len(starts))]}[r.Intn(2)]
+		fc := replayFastCommits(files, fromR, nil)
+		if fc.err != 0 {
+			o.Fail("replay_exact", line, fmt.Sprintf("%s replay from %d with 1ns reader commit interval: err=%d(%s)", desc, fromR, fc.err, fc.errText))
+		}
+		o.Hist["reader_timer_commits"] += len(fc.commits)
+		seen := map[int64]bool{}
+		var rcs []rcommit
+		for _, c := range fc.commits {
+			mp, mc, _, okm := parseMeta(c.meta)
+			if !okm || mp != c.pos || c.pos < 0 || c.pos > total || crc32.ChecksumIEEE(stream[:c.pos]) != mc {
+				o.Fail("reader_commit_meta_matches_stream", line, fmt.Sprintf("%s replay from %d: reader Commit(%d) meta=%x, stream crc at %d is %08x", desc, fromR, c.pos, c.meta, c.pos, crc32.ChecksumIEEE(stream[:max(0, min(c.pos, total))])))
+				break
+			}
+			if !seen[c.pos] {
+				seen[c.pos] = true
+				rcs = append(rcs, c)
+			}
+		}
+		nres := 6
+		if big {
+			nres = 3
+		}
+		for t := 0; t < nres && len(rcs) > 0; t++ {
+			c := rcs[r.Intn(len(rcs))]
+			lo := 0
+			for lo < len(expected) && expected[lo].off < c.pos {
+				lo++
+			}
+			ob := replay(files, c.pos, c.meta)
+			if ob.err != 0 || !sameEvents(applies(ob), lo, len(expected)) || ob.pos != total {
+				o.Fail("resume_from_reader_commit", line, fmt.Sprintf("%s resume@%d with the meta of the reader's own Commit meta=%x err=%d(%s) events=%d want %d", desc, c.pos, c.meta, ob.err, ob.errText, len(applies(ob)), len(expected)-lo))
+				break
+			}
+			if t == 0 && !big {
+				addRP(modif{}, c.pos, c.meta, ob)
+			}
+		}
+	}
+
 	// malformed resumes (correspondence only): wrong crc in the meta, meta ahead of the start offset, start inside an event,
 	// start beyond the end
 	if !big {
